@@ -37,4 +37,21 @@ def prove(tier, seed):
     from vt.pyvc.termproofs import prove_terms
 
     muts = [("diamond_distance", "completely_bounded_trace_norm(choi_1 - choi_2)", "completely_bounded_trace_norm(choi_1 - choi_2) / 2"), ("completely_bounded_spectral_norm", "completely_bounded_trace_norm(dual_channel(phi))", "completely_bounded_trace_norm(phi)")]
-    return prove_terms(["diamond_distance", "completely_bounded_spectral_norm"], muts, tier, "c20", replay_clause="term.formula20")
+    a = prove_terms(["diamond_distance", "completely_bounded_spectral_norm"], muts, tier, "c20", replay_clause="term.formula20")
+    # E1-prog: the SDP branch of completely_bounded_trace_norm (Watrous' program, value = optimum / 2) and channel_fidelity's program
+    import importlib
+
+    from props.sdp_prove import prove_metrics
+    from vt.pyvc.termproofs import merge
+
+    mod = importlib.import_module("props.C20")
+    gen = getattr(mod, "_cases_before_frames", None) or mod.cases
+    rep = []
+    seen = {}
+    for c in gen("quick", seed):
+        k = c.get("clause", "")
+        if not (k.startswith("cbtn.") or k.startswith("cf.")) or seen.get(k, 0) >= 6:
+            continue
+        seen[k] = seen.get(k, 0) + 1
+        rep.append(dict(c, function="completely_bounded_trace_norm" if k.startswith("cbtn.") else "channel_fidelity"))
+    return merge(a, prove_metrics(rep, "c20p", tier))
